@@ -206,6 +206,15 @@ fn mode_a(rng: &mut Rng, arch: &Arch) -> Built {
     let fidx = rng.below(spec.funcs.len() as u64) as usize;
     let mut feats = BTreeSet::new();
     feats.insert("mode_a".to_string());
+    {
+        // pcodegen's prologue: push rbp ; mov rbp, rsp ; sub rsp, N ; (and rsp, -16).  Compilers emit the alignment
+        // before the allocation: swap them half of the time.
+        let b0 = &mut spec.funcs[fidx].blocks[0];
+        if b0.instrs.len() > 3 && b0.instrs[3].len() == 1 && b0.instrs[3][0].mnemonic == "INT_AND" && b0.instrs[3][0].lhs["name"] == json!("RSP") && rng.chance(1, 2) {
+            feats.insert("sp_mask_before_alloc".into());
+            b0.instrs.swap(2, 3);
+        }
+    }
     let richness = rng.below(4); // 0: the function as pcodegen made it
     for b in spec.funcs[fidx].blocks.iter_mut() {
         let n = if richness == 0 { 0 } else { rng.below(richness + 1) };
@@ -366,18 +375,33 @@ fn mode_b(rng: &mut Rng, arch: &Arch) -> Built {
         };
         if i == 0 && prologue {
             feats.insert("prologue".into());
+            // push bp ; mov bp, sp ; then the frame allocation and - sometimes - the alignment of the stack pointer, in
+            // either order (`and sp, -16 ; sub sp, N` is what compilers emit), sometimes with an unrelated instruction in
+            // between (two consecutive assignments to the stack pointer are merged by expression propagation)
             let frame = 0x10 + 8 * rng.below(6);
             let mut pro = vec![
                 vec![bin(sp.clone(), "INT_SUB", sp.clone(), cst(ptr, ptr)), st(arch, sp.clone(), bp.clone())],
                 vec![copy(bp.clone(), sp.clone())],
-                vec![bin(sp.clone(), "INT_SUB", sp.clone(), cst(frame, ptr))],
             ];
+            let alloc = vec![bin(sp.clone(), "INT_SUB", sp.clone(), cst(frame, ptr))];
             if rng.chance(1, 2) {
                 feats.insert("sp_mask".into());
                 let k = *rng.pick(&[4u64, 4, 4, 5, 3, 8, 12]);
                 let mask = cst(!((1u64 << k) - 1), ptr);
                 let a = if rng.chance(1, 4) { bin(sp.clone(), "INT_AND", mask, sp.clone()) } else { bin(sp.clone(), "INT_AND", sp.clone(), mask) };
-                pro.push(vec![a]);
+                let between = if rng.chance(1, 3) { Some(vec![copy(other_base(rng, arch), cst(rng.below(1000), ptr))]) } else { None };
+                if rng.chance(1, 2) {
+                    feats.insert("sp_mask_before_alloc".into());
+                    pro.push(vec![a]);
+                    pro.extend(between);
+                    pro.push(alloc);
+                } else {
+                    pro.push(alloc);
+                    pro.extend(between);
+                    pro.push(vec![a]);
+                }
+            } else {
+                pro.push(alloc);
             }
             pro.extend(instrs);
             instrs = pro;
